@@ -32,7 +32,13 @@ RULE = ('every cell of: [API] each documented URL x {GET,POST,PUT,PATCH,'
         '(a set of their descriptors) and partitioned over the shards; a '
         'cell is non-trivial when its expected outcome is an acceptance, or '
         'a refusal with exactly one failing condition other than the HTTP '
-        'method (the request would be accepted if that condition held)')
+        'method (the request would be accepted if that condition held); '
+        '[two requests at once] 6 acceptable API requests A x 9 requests B '
+        '(acceptable by another admin, ill-formed, unauthorised), B run to '
+        'completion in a second thread before EVERY line event of A inside '
+        'bert_e/server (one preemption): each request keeps its own status '
+        'and the queue holds exactly one job per accepted request, with '
+        'that request\'s user, url arguments and validated body')
 ASSUMPTIONS = [
     'Bert-E is the real class with a replaced constructor (real put_job, '
     'real task_queue, settings from the real SettingsSchema); no worker '
@@ -67,6 +73,7 @@ REQUIRED_COUNTERS = {
     'hook_expected_job': 20, 'hook_refuse_credentials': 200,
     'hook_refuse_identity': 100, 'hook_expected_ignored': 10,
     'login_cells': 10, 'routes_checked': 1,
+    'c14c_interleavings': 1000, 'c14c_refused_request_left_nothing': 300,
 }
 SHARD_TIMEOUT = {'quick': 600, 'thorough': 1800}
 
@@ -1465,7 +1472,8 @@ def run_shard(spec, acc):
                     acc.inconc('session %s of world %s answered %d at the '
                                'end of the shard: the harness lost its '
                                'session' % (kind, name, seen.status))
-        from vf.http import c14_app
+        from vf.http import c14_app, c14_concurrent
+        c14_concurrent.run(acc, seed, shard, n, spec['tier'])
         if c14_app.UNEXPECTED:
             acc.seen('unscripted_outgoing_requests',
                      sorted(set(c14_app.UNEXPECTED))[:5])
@@ -1481,6 +1489,9 @@ def replay(w, acc):
     logging.disable(logging.CRITICAL)
     warnings.simplefilter('ignore')
     from vf.http import c14_app
+    if w.get('concurrent'):
+        from vf.http import c14_concurrent
+        return c14_concurrent.replay(w, acc)
     cfg = c14_app.config(w['seed'])
     worlds = Worlds(cfg)
     try:
